@@ -441,3 +441,62 @@ pub fn c02_types(args: &[String]) {
     let _ = std::panic::take_hook();
     rep.print();
 }
+
+// ---------------------------------------------------------------------------
+// C03 on the real file system: the statuses of LoadFold.tla concretised with real entries
+// (absent, symlink loop = unreadable with an I/O error other than not-found, directory in place
+// of the file, undecodable, valid) for the two-extension leaf L1 = [x, y]
+// ---------------------------------------------------------------------------
+/// `amv c03-fs <workdir>`
+pub fn c03_fs(args: &[String]) {
+    use crate::nodes::top_err_json;
+    let mut rep = Report::default();
+    let statuses = ["absent", "loop", "dir", "bad", "ok"];
+    for sx in statuses {
+        for sy in statuses {
+            rep.cases += 1;
+            let root = std::path::PathBuf::from(format!("{}/c03fs-{}-{sx}-{sy}", args[0], std::process::id()));
+            let _ = std::fs::remove_dir_all(&root);
+            std::fs::create_dir_all(&root).unwrap();
+            for (ext, st, n) in [("x", sx, 1), ("y", sy, 2)] {
+                let p = root.join(format!("a.{ext}"));
+                match st {
+                    "loop" => std::os::unix::fs::symlink(format!("a.{ext}"), &p).unwrap(),
+                    "dir" => std::fs::create_dir(&p).unwrap(),
+                    "bad" => std::fs::write(&p, b"bad").unwrap(),
+                    "ok" => std::fs::write(&p, format!("v{n}")).unwrap(),
+                    _ => {}
+                }
+            }
+            // the law (LoadFold.tla): first decodable extension wins; otherwise conversion > io(other) > io(not found)
+            let rank = |s: &str| match s { "bad" => 3, "loop" => 2, _ => 1 };
+            let want = if sx == "ok" { "ok:1".to_string() } else if sy == "ok" { "ok:2".to_string() } else {
+                let r = rank(sx).max(rank(sy));
+                match r { 3 => "conv".to_string(), 2 => "io:other".to_string(), _ => "io:notfound".to_string() }
+            };
+            let cache = AssetCache::without_hot_reloading(assets_manager::source::FileSystem::new(&root).unwrap());
+            let got = match cache.load::<Leaf<1>>("a") {
+                Ok(h) => format!("ok:{}", h.read().0.data["c"]),
+                Err(e) => {
+                    let j = top_err_json(&e);
+                    let inner = &j["inner"];
+                    match inner["e"].as_str() {
+                        Some("conv") => "conv".to_string(),
+                        Some("io") => format!("io:{}", if inner["kind"] == "notfound" { "notfound" } else { "other" }),
+                        other => format!("{other:?}"),
+                    }
+                }
+            };
+            rep.checks += 1;
+            if got != want {
+                rep.mismatch(json!({"what":"load on the real file system does not follow the extension / error-precedence law",
+                    "x":sx,"y":sy,"got":got,"want":want}));
+            }
+            if got.starts_with("ok") != cache.contains::<Leaf<1>>("a") {
+                rep.mismatch(json!({"what":"a failed load cached something (or a successful one did not)","x":sx,"y":sy}));
+            }
+            let _ = std::fs::remove_dir_all(&root);
+        }
+    }
+    rep.print();
+}
